@@ -170,7 +170,7 @@ func (kv *handlerSpecKV) getHelper(o storage.BinaryObject, err error) (HandlerSp
 }
 
 func (kv *handlerSpecKV) Create(h HandlerSpec) error {
-	return kv.store.Put(&h)
+	return kv.error(kv.store.Create(&h))
 }
 func (kv *handlerSpecKV) CreateTx(tx storage.Tx, h HandlerSpec) error {
 	return kv.store.CreateTx(tx, &h)
